@@ -9,10 +9,12 @@
  * The driver judges nothing: it copies bytes, follows the cursor and maps
  * return codes to classes (ok / none / refused / missing).
  */
+#include "seam.h"   /* message_append.c, array_append.c, buffer_alloc.c are compiled in through the allocation seam */
 #include "drv.h"
 
 #include <ctype.h>
 #include <sys/uio.h>
+#include <sys/mman.h>
 
 #include "message.h"
 #include "array.h"
@@ -27,9 +29,40 @@ static struct iovec *contbase;    /* allocation holding msg.cont */
 static uint8_t *qstore;           /* queue storage a qget message points into */
 static struct iovec *qvec;
 
+extern void seam_set_psize(int);  /* drv/alloc_seam.c: allocation granularity of _mpt_buffer_alloc */
+
+/* where the base of a zero-length fragment points (argument eb of init; the meaning of the
+ * message does not depend on it):
+ *   slice   its own (zero sized) heap block
+ *   null    nowhere
+ *   guard   a page without access rights: any dereference faults
+ *   foreign unrelated, readable memory filled with the byte fb */
+enum { EB_SLICE, EB_NULL, EB_GUARD, EB_FOREIGN };
+static int ebase_kind = EB_SLICE;
+static uint8_t *guard_page;
+static uint8_t foreign[64];
+static int last_fired = -1;        /* append: did the injected allocation failure happen */
+
+static void *empty_base(void)
+{
+	if (ebase_kind == EB_NULL) return 0;
+	if (ebase_kind == EB_GUARD) {
+		if (!guard_page) {
+			void *p = mmap(0, 8192, PROT_NONE, MAP_PRIVATE | MAP_ANONYMOUS, -1, 0);
+			if (p == MAP_FAILED) abort();
+			guard_page = (uint8_t *) p + 4096;   /* inaccessible in both directions */
+		}
+		return guard_page;
+	}
+	return foreign + sizeof(foreign) / 2;
+}
+
 static void drv_reset(void)
 {
 	size_t i;
+	ebase_kind = EB_SLICE;
+	vf_reset();
+	seam_set_psize(0);
 	for (i = 0; i < nblocks; i++) free(blocks[i]);
 	free(blocks); blocks = 0; nblocks = 0;
 	free(contbase); contbase = 0;
@@ -49,7 +82,9 @@ static uint8_t *exact(const uint8_t *src, size_t len)
 static void set_message(const uint8_t *data, size_t dlen, const long long *cut, size_t ncut)
 {
 	size_t i, pos = 0;
+	int kind = ebase_kind;
 	drv_reset();
+	ebase_kind = kind;
 	if (!ncut) return;
 	blocks = (uint8_t **) calloc(ncut, sizeof(*blocks));
 	nblocks = ncut;
@@ -57,12 +92,14 @@ static void set_message(const uint8_t *data, size_t dlen, const long long *cut, 
 	for (i = 0; i < ncut; i++) {
 		size_t l = (size_t) cut[i];
 		if (pos + l > dlen) l = dlen - pos;
-		blocks[i] = exact(data + pos, l);
+		void *base;
+		if (!l && ebase_kind != EB_SLICE) base = empty_base();
+		else base = blocks[i] = exact(data + pos, l);
 		if (!i) {
-			msg.base = blocks[i];
+			msg.base = base;
 			msg.used = l;
 		} else {
-			contbase[i - 1].iov_base = blocks[i];
+			contbase[i - 1].iov_base = base;
 			contbase[i - 1].iov_len = l;
 		}
 		pos += l;
@@ -112,6 +149,8 @@ static void answer(struct cmd *c, const char *ret, const long long *val, size_t 
 	j_bytes("out", out, outlen);
 	j_bytes("content", fl, n);
 	drv_dbg();
+	if (last_fired >= 0) j_int("fired", last_fired);
+	last_fired = -1;
 	j_ints("cut", cut, 1 + msg.clen);
 	drv_end();
 	free(fl);
@@ -160,6 +199,12 @@ static void drv_step(struct cmd *c)
 		size_t dl, nc;
 		uint8_t *data = drv_bytes(c, "data", &dl);
 		long long *cut = drv_ints(c, "cut", &nc);
+		const char *eb = drv_raw(c, "eb");
+		int kind = !eb ? EB_SLICE : !strcmp(eb, "null") ? EB_NULL : !strcmp(eb, "guard") ? EB_GUARD
+		         : !strcmp(eb, "foreign") ? EB_FOREIGN : EB_SLICE;
+		drv_reset();
+		ebase_kind = kind;
+		memset(foreign, (int) drv_int(c, "fb", 0), sizeof(foreign));
 		set_message(data, dl, cut, nc);
 		answer(c, "ok", 0, 0, 0, 0);
 		free(data); free(cut);
@@ -250,32 +295,47 @@ static void drv_step(struct cmd *c)
 		d = (struct iovec *) malloc(nd * sizeof(*d));
 		for (i = 0; i < nd; i++) {
 			d[i].iov_len = (size_t) dcut[i];
-			d[i].iov_base = malloc(d[i].iov_len);
-			memset(d[i].iov_base, FILL, d[i].iov_len);
+			/* empty destination fragments point where the empty source fragments do */
+			d[i].iov_base = (!d[i].iov_len && ebase_kind != EB_SLICE) ? empty_base() : malloc(d[i].iov_len);
+			if (d[i].iov_len) memset(d[i].iov_base, FILL, d[i].iov_len);
 			total += d[i].iov_len;
 		}
 		r = mpt_memcpy((ssize_t) drv_int(c, "n", 0), v, n, d, nd);
 		out = (uint8_t *) malloc(total + 1);
 		for (i = 0; i < nd; i++) {
-			memcpy(out + pos, d[i].iov_base, d[i].iov_len);
+			if (d[i].iov_len) memcpy(out + pos, d[i].iov_base, d[i].iov_len);
 			pos += d[i].iov_len;
 		}
 		rv = (long long) r;
 		if (r >= 0) answer(c, "ok", &rv, 1, out, total);
 		else answer(c, "refused", 0, 0, out, total);
-		for (i = 0; i < nd; i++) free(d[i].iov_base);
+		for (i = 0; i < nd; i++) if (d[i].iov_len || ebase_kind == EB_SLICE) free(d[i].iov_base);
 		free(d); free(v); free(dcut); free(out);
 	}
 	else if (!strcmp(a, "append")) {
-		MPT_STRUCT(array) arr = MPT_ARRAY_INIT;
+		/* array kinds: exact  = no buffer (pre empty) or a buffer that is exactly full, every growth replaces it
+		 *              shared = the same with a second owner of the buffer (the append has to take a private copy)
+		 *              roomy  = no buffer (pre empty) or a buffer with spare capacity for the whole message
+		 * fail = k > 0: the k-th allocation of the call fails */
+		MPT_STRUCT(array) arr = MPT_ARRAY_INIT, other = MPT_ARRAY_INIT;
 		size_t pl;
 		uint8_t *pre = drv_bytes(c, "pre", &pl);
-		int r;
+		const char *kind = drv_raw(c, "kind");
+		long fail = (long) drv_int(c, "fail", 0);
+		int r, fired;
+		seam_set_psize((kind && !strcmp(kind, "roomy")) ? 4096 : 1);
 		if (pl) mpt_array_append(&arr, pl, pre);
+		if (pl && kind && !strcmp(kind, "shared")) mpt_array_clone(&other, &arr);
+		vf_fail_after = fail > 0 ? fail - 1 : -1;
 		r = mpt_message_append(&arr, &msg);
+		fired = fail > 0 && vf_fail_after < 0;
+		vf_fail_after = -1;
+		last_fired = fired;
 		if (r < 0) answer(c, "refused", 0, 0, arr._buf ? (void *) (arr._buf + 1) : 0, arr._buf ? arr._buf->_used : 0);
 		else answer(c, "ok", 0, 0, arr._buf ? (void *) (arr._buf + 1) : 0, arr._buf ? arr._buf->_used : 0);
 		mpt_array_clone(&arr, 0);
+		mpt_array_clone(&other, 0);
+		seam_set_psize(0);
 		free(pre);
 	}
 	else if (!strcmp(a, "arrmsg")) {
